@@ -30,6 +30,11 @@ def gen_case(rng, i):
     has_mu = rng.random() < 0.5
     mu = [logu(1e-3, 1e3) for _ in range(n)] if has_mu else None
     case = dict(kind=kind, B=B, K=K, shape=shape, inv=inv, mu=mu)
+    # what kind of object carries the relative rate: a plain parameter, a view into a longer parameter (how the CLI
+    # writes the relative rates of a partitioned model) or a transformed parameter (a rate kept positive through exp)
+    case["mu_kind"] = rng.choice(["plain", "plain", "view", "exp"]) if has_mu else "plain"
+    # the same specification (the same dict object) parsed twice: the second model is the one examined
+    case["parse_twice"] = rng.random() < 0.3
     # history: the same object is evaluated, one of its parameters is assigned, and it is evaluated again
     hist = []
     names = [k for k in (("shape",) if kind == "weibull" else ()) + ("inv", "mu") if case.get(k) is not None]
@@ -84,7 +89,18 @@ def run_impl(case):
     if case["inv"] is not None:
         d["invariant"] = P("inv", case["inv"])
     if case["mu"] is not None:
-        d["mu"] = P("mu", case["mu"])
+        mk = case.get("mu_kind", "plain")
+        if mk == "view":
+            base = [[7.0, v] for v in case["mu"]] if B is not None else [7.0, case["mu"][0]]
+            d["mu"] = {"id": "mu", "type": "ViewParameter", "parameter": impl.param_json("mu.base", base), "indices": "1:"}
+        elif mk == "exp":
+            logs = [[math.log(v)] for v in case["mu"]] if B is not None else [math.log(case["mu"][0])]
+            d["mu"] = {"id": "mu", "type": "TransformedParameter", "transform": "torch.distributions.ExpTransform",
+                       "x": impl.param_json("mu.log", logs)}
+        else:
+            d["mu"] = P("mu", case["mu"])
+    if case.get("parse_twice"):
+        cls.from_json(d, {})        # a first model from the same dict object (thrown away)
     m = cls.from_json(d, dic)
     n = B or 1
     def rows(t):
@@ -107,6 +123,8 @@ def run_impl(case):
         par = dic[ids[w]]
         new = torch.tensor([[x] for x in v] if B is not None else [v[0]], dtype=par.tensor.dtype)
         how = case.get("how", {}).get(str(len(out)), 0)
+        if w == "mu" and case.get("mu_kind", "plain") != "plain":
+            how = 0                      # a view / a transformed parameter is assigned through its setter
         if how == 1 and new.shape == par.tensor.shape:
             held = par.tensor            # edit in place, assign the same object back (as MCMC operators do)
             held.copy_(new)
